@@ -97,6 +97,8 @@ def fault_inputs(rnd, tier, repo_programs):
           "recurses": "return kk(xa)", "big_output": "print('x' * 10000000)\nreturn 1", "stderr": "import sys\nsys.stderr.write('e' * 100000)\nreturn 1",
           "forks": "import subprocess, sys\nsubprocess.Popen([sys.executable, '-c', 'import time; time.sleep(30)'])\nreturn 1",
           "open": "return open('/etc/passwd').read()", "eval": "return eval('1')", "exec": "exec('x=1')\nreturn 1", "import_fail": "import nosuchmodule\nreturn 1",
+          "ignores_sigterm": "import signal\nsignal.signal(signal.SIGTERM, signal.SIG_IGN)\nwhile True:\n    pass",
+          "ignores_sigint_sleeps": "import signal, time\nsignal.signal(signal.SIGINT, signal.SIG_IGN)\nsignal.signal(signal.SIGTERM, signal.SIG_IGN)\ntime.sleep(600)\nreturn 1",
           "unicode_out": "return '\\u2603'", "kills_self": "import os, signal\nos.kill(os.getpid(), signal.SIGKILL)"}
     for n, b in cx.items():
         add("constexpr", n, constexpr_src(b))
@@ -125,7 +127,7 @@ def fault_inputs(rnd, tier, repo_programs):
     return out
 
 
-class Hung(Exception):
+class Hung(BaseException):
     pass
 
 
